@@ -397,6 +397,65 @@ def case_metrics_jitter(H, N=3):
 
 
 # ------------------------------------------------------------------------------------------------ geodesic loss
+def case_rpe_distance(H, N=4):
+    """rpe with associate='distance': pairs are selected by the path length travelled along the estimate, which a fixed translation of
+    that trajectory does not change.  Translations are concrete (so every pairing decision is concrete), rotations symbolic."""
+    name = 'C19/rpe-distance-pairing/N=%d' % N
+    from symx.terms import free_vars
+    tr = torch.tensor([[0.5 + 0.75 * i, 0.0, 0.0] for i in range(N)], dtype=DT)
+    te = torch.tensor([[0.25 + 0.75 * i, 0.0, 0.0] for i in range(N)], dtype=DT)
+    shift = torch.tensor([5.0, -3.0, 2.0, 0.0, 0.0, 0.0, 1.0], dtype=DT)
+
+    def prog(m):
+        qr, qe = rand_group('SO3', 520, shape=(N,)), rand_group('SO3', 521, shape=(N,))
+        rs, es = m.symbolic(qr, 'r'), m.symbolic(qe, 'e')
+        for i in range(N):
+            m.ctx.assume += valid('SO3', rs[4 * i:4 * i + 4]) + valid('SO3', es[4 * i:4 * i + 4])
+        R = pp.SE3(torch.cat([tr, qr.tensor()], -1))
+        E = pp.SE3(torch.cat([te, qe.tensor()], -1))
+        Tg = pp.SE3(shift.clone())
+        st = torch.arange(N, dtype=torch.float64)
+
+        def errs(n0):
+            outl = []
+            for (fn, _), (v, x) in list(m.ctx.tf.items())[n0:]:
+                fv = {}
+                free_vars(x, fv, set())
+                if fn == 'sqrt' and not any(n.startswith('sqrt!') for n in fv):
+                    outl.append((v, x))
+            return outl
+        n0 = len(m.ctx.tf)
+        pp.metric.rpe(st.clone(), R, st.clone(), E, etype='translation', associate='distance', delta=0.5)
+        ma = errs(n0)
+        n1 = len(m.ctx.tf)
+        pp.metric.rpe(st.clone(), R, st.clone(), Tg @ E, etype='translation', associate='distance', delta=0.5)
+        mb = errs(n1)
+        return rs, es, ma, mb
+
+    def replay(model):
+        torch.manual_seed(6)
+        R = pp.SE3(torch.cat([tr, pp.randn_SO3(N, dtype=DT).tensor()], -1))
+        E = pp.SE3(torch.cat([te, pp.randn_SO3(N, dtype=DT).tensor()], -1))
+        st = torch.arange(N, dtype=torch.float64)
+        a = pp.metric.rpe(st.clone(), R, st.clone(), E, associate='distance', delta=0.5)
+        b = pp.metric.rpe(st.clone(), R, st.clone(), pp.SE3(shift.clone()) @ E, associate='distance', delta=0.5)
+        e = max(abs(a[k].item() - b[k].item()) for k in ('Max', 'RMSE', 'Mean', 'Min'))
+        return e > 1e-8, 'rpe(associate=distance) changes by %.3g when the estimate is translated by a fixed pose' % e
+
+    for ctx, (rs, es, ma, mb) in run_paths(H, name, prog, max_paths=4, max_decisions=40, ctx_opts={'median_havoc': True}):
+        hyp = H.hyps_of(ctx, pairs=False)
+        rels = [unit_rel('SO3', rs[4 * i:4 * i + 4]) for i in range(N)] + [unit_rel('SO3', es[4 * i:4 * i + 4]) for i in range(N)]
+        to = 60 if H.quick else 240
+        # the shifted call either re-uses the plain call's error norms (no new sqrt terms) or creates one per pair of the plain call
+        H.prove('%s/path%d/same-number-of-pairs' % (name, H.paths), [], z3.BoolVal(len(mb) in (0, len(ma))), replay=replay,
+                key='C19/metric/rpe-left-invariance')
+        if len(mb) == len(ma):
+            for i_, ((_, x2), (_, x1)) in enumerate(zip(mb, ma)):
+                H.certify('%s/path%d/squared-error[%d]-invariant' % (name, H.paths, i_), x2, x1, rels, hyps=hyp, replay=replay,
+                          key='C19/metric/rpe-left-invariance', timeout=to)
+        H.reach('%s/path%d/reach' % (name, H.paths), hyp)
+
+
 def case_geodesic(H, g):
     name = 'C19/geodesic_loss/%s' % g
 
@@ -500,7 +559,7 @@ def run(H):
     H.assumptions += ['exact real arithmetic', 'valid poses', 'SE3 Log/Exp inside bspline are contract stubs (C01/C02) honouring Log(I)=0, Exp(0)=I, Exp(Log X)=X',
                       'ape/rpe: exactly matching timestamps, and (jitter case) stamps on a 4 ms grid with |jitter| < 1.5 ms under a 10 ms threshold']
     H.bounds += ['chspline: N in 2..4 (thorough 6), intervals {0.5, 0.25, 0.3}, C in {1,2}', 'bspline: N=4 poses (thorough 5), intervals {0.5, 0.3}',
-                 'ape/rpe: 3 poses (thorough 4), translation error type', 'geodesic loss: SO3 (quick), SE3 (thorough)']
+                 'ape/rpe: 3 poses (thorough 4), translation error type', 'rpe(associate=distance): 4 poses with concrete collinear translations (all pairing decisions concrete), symbolic rotations, concrete translation of the estimate', 'geodesic loss: SO3 (quick), SE3 (thorough)']
     jobs = []
     for N, itv, C in ([(2, 0.5, 1), (3, 0.25, 2), (4, 0.3, 1)] if H.quick else [(2, 0.5, 1), (3, 0.25, 2), (4, 0.3, 1), (5, 0.1, 2), (6, 0.4, 1)]):
         jobs.append(lambda N=N, i=itv, C=C: case_chspline(H, N, i, C))
@@ -511,6 +570,7 @@ def run(H):
     jobs.append(lambda: case_metrics_jitter(H, 3))
     jobs.append(lambda: case_geodesic(H, 'SO3'))
     jobs.append(lambda: case_geodesic_angle(H, 'SO3'))
+    jobs.append(lambda: case_rpe_distance(H, 4))
     if not H.quick:
         jobs.append(lambda: case_bspline(H, 5, 0.4, False))
         jobs.append(lambda: case_bspline(H, 3, 0.3, True))
@@ -519,7 +579,7 @@ def run(H):
         jobs.append(lambda: case_geodesic_angle(H, 'SE3'))
     only = getattr(H, 'only', None)
     if only:
-        jobs = {'geodesic': jobs[8:10], 'metrics': jobs[6:7], 'jitter': jobs[7:8], 'bspline': jobs[3:6], 'chspline': jobs[:3]}.get(only, jobs)
+        jobs = {'geodesic': jobs[8:10], 'metrics': jobs[6:7], 'jitter': jobs[7:8], 'bspline': jobs[3:6], 'chspline': jobs[:3], 'rpedist': jobs[10:11]}.get(only, jobs)
     for j in jobs:
         try:
             j()
